@@ -472,6 +472,8 @@ def run(ctx) -> None:
     from .c11 import r11_3 as _r11_3
     ctx.guard_as("R19.11", _r11_3)  # "integers in JWKs ... round-trip exactly": EC x / y / d are written with the curve's coordinate length (leading zero octets kept)
     ctx.guard_as("R19.6", r11_2)  # RSA integers are exported through the minimal-length codec
+    from .c08 import r08_4 as _r08_4
+    ctx.guard_as("R19.14", _r08_4)  # "decoding is strict": the apu / apv header values reach the Concat KDF through the strict base64url decoder in every key management mode
     ctx.note("undecided remainder: decode(encode(x)) == x and rejection of every non-alphabet character / impossible length for *all* octet strings is a property of "
              "CPython's binascii C code - outside the analysed source")
     ctx.assume("base64.b64decode(validate=True) rejects non-alphabet characters and impossible lengths (non-canonical trailing bits are accepted by CPython)")
